@@ -25,15 +25,39 @@ type ConcatCase struct {
 	Mode int         `json:"mode"`
 	Equs [][2]string `json:"equs,omitempty"` // name, body — shared preamble H
 	Seqs [][]SeqStmt `json:"seqs"`           // A, B, (C)
+	// PartMode[i]: 0 = part i follows the mode in force, 16/32 = a [BITS n] directive is written in front of it
+	PartMode []int `json:"partmode,omitempty"`
+	// Fresh: the parts are additionally assembled by the gosk binary, one fresh process each, so
+	// that state surviving from one assembly to the next inside this process cannot hide on both sides
+	Fresh bool `json:"fresh,omitempty"`
 }
 
-func (c *ConcatCase) header() string {
+func (c *ConcatCase) header() string { return c.headerFor(c.Mode) }
+
+func (c *ConcatCase) headerFor(mode int) string {
 	var sb strings.Builder
-	sb.WriteString(sem.Header(c.Mode))
+	sb.WriteString(sem.Header(mode))
 	for _, e := range c.Equs {
 		fmt.Fprintf(&sb, "%s\tEQU\t%s\n", e[0], e[1])
 	}
 	return sb.String()
+}
+
+// effMode: the mode in force for part i (its own directive, else the nearest earlier one, else the header's).
+func (c *ConcatCase) effMode(i int) int {
+	for j := i; j >= 0; j-- {
+		if j < len(c.PartMode) && c.PartMode[j] != 0 {
+			return c.PartMode[j]
+		}
+	}
+	return c.Mode
+}
+
+func (c *ConcatCase) partDirective(i int) string {
+	if i < len(c.PartMode) {
+		return bitsDirective(c.PartMode[i])
+	}
+	return ""
 }
 
 func seqText(ss []SeqStmt) string {
@@ -53,10 +77,30 @@ func genIndepStmt(t *rapid.T, mode int, equs [][2]string) SeqStmt {
 		e := equs[rapid.IntRange(0, len(equs)-1).Draw(t, "ie")]
 		reg := regsOf(rapid.SampledFrom([]int{8, 16, 32}).Draw(t, "ib"))[rapid.IntRange(0, 7).Draw(t, "ir")]
 		op := rapid.SampledFrom([]string{"MOV", "ADD", "CMP", "AND"}).Draw(t, "iop")
-		text := fmt.Sprintf("%s %s,%s", op, reg, e[0])
+		// the name alone, or inside an expression / a memory operand / a data directive
+		use := e[0]
+		switch rapid.IntRange(0, 7).Draw(t, "iuse") {
+		case 0:
+			use = fmt.Sprintf("%s+%d", e[0], rapid.IntRange(1, 9).Draw(t, "iadd"))
+		case 1:
+			use = fmt.Sprintf("%s*2", e[0])
+		case 2:
+			use = fmt.Sprintf("%s-1", e[0])
+		case 3:
+			use = fmt.Sprintf("%d+%s", rapid.IntRange(1, 9).Draw(t, "iadd"), e[0])
+		}
+		text := fmt.Sprintf("%s %s,%s", op, reg, use)
+		switch rapid.IntRange(0, 7).Draw(t, "ipos") {
+		case 0:
+			text = fmt.Sprintf("MOV %s,[%s]", reg, use)
+		case 1:
+			text = fmt.Sprintf("%s %s", rapid.SampledFrom([]string{"DB", "DW", "DD"}).Draw(t, "idir"), use)
+		case 2:
+			text = fmt.Sprintf("RESB %s", use)
+		}
 		// acceptance must be probed with the definition present
 		r := asm.Assemble(sem.Header(mode) + e[0] + "\tEQU\t" + e[1] + "\n\t" + text + "\n")
-		if asm.Diagnosed(r, asm.Baseline(sem.Header(mode))) || len(r.Out) == 0 {
+		if asm.Diagnosed(r, asm.Baseline(sem.Header(mode))) || len(r.Out) == 0 || len(r.Out) > 4096 {
 			return SeqStmt{"NOP", "noparam"}
 		}
 		return SeqStmt{text, "equ.use"}
@@ -76,11 +120,15 @@ func genIndepStmt(t *rapid.T, mode int, equs [][2]string) SeqStmt {
 func checkC14(c ConcatCase) Verdict {
 	h := c.header()
 	whole := h
-	for _, s := range c.Seqs {
-		whole += seqText(s)
+	for i, s := range c.Seqs {
+		whole += c.partDirective(i) + seqText(s)
 	}
 	v := Verdict{Key: whole}
-	base := asm.Baseline(sem.Header(c.Mode))
+	dirs := sem.Header(c.Mode)
+	for i := range c.Seqs {
+		dirs += c.partDirective(i)
+	}
+	base := asm.Baseline(dirs)
 	rw := asm.Assemble(whole)
 	if asm.Diagnosed(rw, base) {
 		v.Skip = "diagnosed: " + asm.DiagClass(rw, base)
@@ -89,9 +137,9 @@ func checkC14(c ConcatCase) Verdict {
 	var cat []byte
 	var parts [][]byte
 	for i, s := range c.Seqs {
-		r := asm.Assemble(h + seqText(s))
-		if asm.Diagnosed(r, base) {
-			v.Fail = fmt.Sprintf("the whole program assembles without diagnostic, but part %d alone is diagnosed (%s)\n--- whole ---\n%s", i, asm.DiagClass(r, base), whole)
+		r := asm.Assemble(c.headerFor(c.effMode(i)) + seqText(s))
+		if pb := asm.Baseline(sem.Header(c.effMode(i))); asm.Diagnosed(r, pb) {
+			v.Fail = fmt.Sprintf("the whole program assembles without diagnostic, but part %d alone is diagnosed (%s)\n--- whole ---\n%s", i, asm.DiagClass(r, pb), whole)
 			v.Sig = "C14|part-diagnosed"
 			return v
 		}
@@ -114,8 +162,29 @@ func checkC14(c ConcatCase) Verdict {
 			pi = i
 		}
 		v.Fail = fmt.Sprintf("out(A;B;..) differs from out(A)||out(B)||.. at offset %d (inside part %d): whole % x, concatenation % x\n--- whole ---\n%s", at, pi, clip(rw.Out, at), clip(cat, at), whole)
-		v.Sig = fmt.Sprintf("C14|concat|mode=%d", sem.ModeOf(c.Mode))
+		v.Sig = fmt.Sprintf("C14|concat|mode=%d|switch=%v", sem.ModeOf(c.effMode(pi)), len(c.PartMode) > 0)
 		return v
+	}
+	if c.Fresh && asm.GoskPath() != "" {
+		var fcat []byte
+		for i, s := range c.Seqs {
+			b, ok := asm.FreshProcessBytes(c.headerFor(c.effMode(i)) + seqText(s))
+			if !ok {
+				v.Fail = fmt.Sprintf("part %d assembles in this process but the gosk binary fails on it\n--- part ---\n%s", i, c.headerFor(c.effMode(i))+seqText(s))
+				v.Sig = "C14|fresh-fails"
+				return v
+			}
+			fcat = append(fcat, b...)
+		}
+		if !bytes.Equal(rw.Out, fcat) {
+			at := 0
+			for at < len(fcat) && at < len(rw.Out) && fcat[at] == rw.Out[at] {
+				at++
+			}
+			v.Fail = fmt.Sprintf("out(A;B;..) assembled after other programs in this process differs from the parts assembled one per fresh process at offset %d: whole % x, parts % x\n--- whole ---\n%s", at, clip(rw.Out, at), clip(fcat, at), whole)
+			v.Sig = fmt.Sprintf("C14|fresh|mode=%d", sem.ModeOf(c.Mode))
+			return v
+		}
 	}
 	cls := map[string]bool{}
 	nonEmpty := 0
@@ -128,14 +197,14 @@ func checkC14(c ConcatCase) Verdict {
 		}
 	}
 	v.NonTrivial = nonEmpty >= 2 && len(cls) >= 2
-	v.Class = fmt.Sprintf("parts=%d", len(c.Seqs))
+	v.Class = fmt.Sprintf("parts=%d,fresh=%v,switch=%v", len(c.Seqs), c.Fresh, len(c.PartMode) > 0)
 	v.Sample = map[string]any{"source": whole, "bytes": len(cat)}
 	return v
 }
 
 var propC14 = &Prop[ConcatCase]{
 	ID:   "C14",
-	Rule: "two or three label-free, position-independent statement sequences (instruction forms of C01, memory forms of C02, data directives, RESB, INT, far JMP, uses of shared EQU names; no $, ALIGNB, labels, relative branches) under one mode header; oracle: out(H;A;B;C) = out(H;A) || out(H;B) || out(H;C); non-trivial = at least two non-empty parts with statements of different form classes; distinct by source text",
+	Rule: "two or three label-free, position-independent statement sequences (instruction forms of C01, memory forms of C02, data directives, RESB, INT, far JMP, uses of shared EQU names alone and inside expressions, memory operands, data directives and RESB; no $, ALIGNB, labels, relative branches) under one mode header (one case in four: a [BITS n] directive in front of some parts, so the mode in force changes between them); oracle: out(H;A;B;C) = out(H;A) || out(H;B) || out(H;C), every part assembled alone under the mode in force for it, and for one case in fifty (with parts of 6..14 statements) also = the parts assembled by the gosk binary, one fresh process each; non-trivial = at least two non-empty parts with statements of different form classes; distinct by source text",
 	Gen: func(t *rapid.T) ConcatCase {
 		c := ConcatCase{Mode: rapid.SampledFrom([]int{0, 16, 32}).Draw(t, "mode")}
 		used := map[string]bool{}
@@ -143,11 +212,21 @@ var propC14 = &Prop[ConcatCase]{
 			v := rapid.SampledFrom([]int64{0, 1, 0x7f, 0x80, 0xff, 0x100, 0x7fff, 0x12345}).Draw(t, "equv")
 			c.Equs = append(c.Equs, [2]string{genName(t, "equn", used), renderImm(v, 1)})
 		}
+		// a fresh process costs ~0.2 s: one case in fifty, with longer parts
+		c.Fresh = rapid.IntRange(0, 49).Draw(t, "fresh") == 23 // an interior value: rapid favours the ends of a range
+		lo, hi := 0, 5
+		if c.Fresh {
+			lo, hi = 6, 14
+		}
 		np := rapid.IntRange(2, 3).Draw(t, "nparts")
+		switching := rapid.IntRange(0, 3).Draw(t, "switching") == 0
 		for p := 0; p < np; p++ {
 			var seq []SeqStmt
-			for i := rapid.IntRange(0, 5).Draw(t, "nseq"); i > 0; i-- {
-				seq = append(seq, genIndepStmt(t, c.Mode, c.Equs))
+			if switching {
+				c.PartMode = append(c.PartMode, rapid.SampledFrom([]int{0, 16, 32}).Draw(t, "pmode"))
+			}
+			for i := rapid.IntRange(lo, hi).Draw(t, "nseq"); i > 0; i-- {
+				seq = append(seq, genIndepStmt(t, c.effMode(p), c.Equs))
 			}
 			c.Seqs = append(c.Seqs, seq)
 		}
